@@ -64,7 +64,10 @@ class Registry:
         return self.ctors.get(ci.name)
 
     def call_contract(self, qual: str):
-        return self.contracts.get(qual)
+        c = self.contracts.get(qual)
+        if c is None and "." in qual.split(":")[-1]:
+            c = self.contracts.get("*." + qual.split(".")[-1])
+        return c
 
     def const_override(self, module: str, name: str):
         return self.consts.get((module, name))
